@@ -10,7 +10,8 @@ package c17
 // Every model decision (what a call answers, which call fails, when the chain changes during the scan) is still
 // taken by the model provider of c17_test.go; this file only translates it to and from the wire:
 //   - logs are types.Log values of the core contract (topic LogStateUpdate, ABI-packed data, removed flag);
-//   - an injected failure is a JSON-RPC error answer;
+//   - an injected failure is a JSON-RPC error answer, except "no such block" for eth_getBlockByNumber (finalized, safe,
+//     latest tag), which is the JSON null a real node answers; the real adapter turns it into eth.ErrNotFound;
 //   - a subscription failure is the node cutting the websocket connections (a node has no other way to end a
 //     subscription); the client's rpc.Client reconnects on its next call and the client resubscribes.
 //
@@ -41,6 +42,7 @@ import (
 
 	"github.com/NethermindEth/juno/blockchain/networks"
 	"github.com/NethermindEth/juno/l1"
+	"github.com/NethermindEth/juno/l1/eth"
 	"github.com/NethermindEth/juno/l1/geth/contract"
 	"github.com/ethereum/go-ethereum/accounts/abi"
 	"github.com/ethereum/go-ethereum/common"
@@ -229,7 +231,7 @@ func (a *ethAPI) ChainId(ctx context.Context) (*hexutil.Big, error) { //nolint:r
 }
 
 func (a *ethAPI) BlockNumber(ctx context.Context) (hexutil.Uint64, error) {
-	n, err := a.n.p.LatestHeight(ctx)
+	n, err := a.n.p.LatestHeight(ctx) // (every failure kind is a JSON-RPC error here: the method has no null answer)
 	return hexutil.Uint64(n), err
 }
 
@@ -237,19 +239,43 @@ func header(n uint64) *types.Header {
 	return &types.Header{Number: new(big.Int).SetUint64(n), Difficulty: new(big.Int)}
 }
 
-func (a *ethAPI) GetBlockByNumber(ctx context.Context, nr rpc.BlockNumber, _ bool) (*types.Header, error) {
+// GetBlockByNumber answers a header, or JSON null for "no such block" (the result type is `any` because a nil
+// *types.Header cannot be marshalled).
+func (a *ethAPI) GetBlockByNumber(ctx context.Context, nr rpc.BlockNumber, _ bool) (any, error) {
 	h := a.n.h
 	switch {
 	case nr == rpc.FinalizedBlockNumber:
 		n, err := a.n.p.FinalisedHeight(ctx)
+		if errors.Is(err, eth.ErrNotFound) {
+			// "no such block": an execution client that has not been told a finalised checkpoint (yet) answers null
+			h.mu.Lock()
+			h.flagLocked("geth-finalized-null")
+			h.mu.Unlock()
+			return nil, nil
+		}
 		if err != nil {
 			return nil, err
 		}
 		return header(n), nil
-	case nr == rpc.LatestBlockNumber || nr == rpc.PendingBlockNumber:
+	case nr == rpc.SafeBlockNumber:
+		// the safe block lies between the finalised block and the tip; unknown whenever the finalised one is
 		h.mu.Lock()
 		defer h.mu.Unlock()
-		return header(uint64(len(h.blocks) - 1)), nil
+		if len(h.finPattern) > 0 && h.finPattern[h.finPos%len(h.finPattern)] == kNotFound {
+			return nil, nil
+		}
+		tip := uint64(len(h.blocks) - 1)
+		return header(h.fin + (tip-h.fin)/2), nil
+	case nr == rpc.LatestBlockNumber || nr == rpc.PendingBlockNumber:
+		// (not asked by the adapter as it is; answered like eth_blockNumber, "no such block" being null)
+		n, err := a.n.p.LatestHeight(ctx)
+		if errors.Is(err, eth.ErrNotFound) {
+			return nil, nil
+		}
+		if err != nil {
+			return nil, err
+		}
+		return header(n), nil
 	case nr >= 0:
 		h.mu.Lock()
 		defer h.mu.Unlock()
@@ -272,8 +298,10 @@ func (a *ethAPI) resolve(nr *rpc.BlockNumber, def uint64) (uint64, error) {
 		return uint64(*nr), nil
 	case *nr == rpc.LatestBlockNumber || *nr == rpc.PendingBlockNumber:
 		return uint64(len(h.blocks) - 1), nil
-	case *nr == rpc.FinalizedBlockNumber || *nr == rpc.SafeBlockNumber:
+	case *nr == rpc.FinalizedBlockNumber:
 		return h.fin, nil
+	case *nr == rpc.SafeBlockNumber:
+		return h.fin + (uint64(len(h.blocks)-1)-h.fin)/2, nil
 	}
 	return 0, fmt.Errorf("c17 node: block tag %d not served", *nr)
 }
@@ -567,7 +595,8 @@ func runScriptGeth(rt *rapid.T, c *stats.Case) {
 const ruleGeth = "the script of TestPropL1HeadScript with the model L1 node served as an Ethereum JSON-RPC endpoint (in-process go-ethereum " +
 	"rpc.Server over a websocket) to the real l1.GethL1StateProvider + l1.Client + Blockchain: logs (incl. removed=true copies) travel as " +
 	"eth_subscribe notifications through ethclient, the abigen filterer and forwardStateUpdates; the catch-up scan is eth_blockNumber / " +
-	"eth_getBlockByNumber(finalized) / eth_getLogs; injected failures are JSON-RPC errors; a subscription failure is the node cutting the " +
+	"eth_getBlockByNumber(finalized) / eth_getLogs; injected failures are JSON-RPC errors, 'no finalised block' is the JSON null answer (label " +
+	"geth-finalized-null) that the adapter reports as eth.ErrNotFound; a subscription failure is the node cutting the " +
 	"connection (rpc.Client reconnects, the client resubscribes); synchronisation by stream markers acknowledged at the adapter's output + " +
 	"counts. Same oracles and non-trivial rule as TestPropL1HeadScript"
 
